@@ -308,6 +308,24 @@ def check_reuse(ctx, v):
         except Exception:  # noqa  (C14's business)
             ctx.count("skipped:activation-raises")
             return
+        # rejected requests first (the caller catches the exceptions): rest times that are not a list, on the reused
+        # sample - at step 0 that is a sample which has never been calculated - and a target that is not a number
+        if len(formula) % 2 == i % 2:
+            def _gives_up():
+                yield 0.0
+                raise ValueError("rest times unavailable")
+            for bad_rests in (24, None, _gives_up()):
+                try:
+                    reused.calculate_activation(environment, exposure=envd["exposure"], rest_times=bad_rests,
+                                                abundance=abundance)
+                except Exception:  # noqa
+                    ctx.count("reuse:rejected-rest-times")
+            if i:
+                for bad_target in ("1e-3", None, object()):
+                    try:
+                        reused.decay_time(bad_target)
+                    except Exception:  # noqa
+                        ctx.count("reuse:rejected-target")
         try:
             with unchanged("c15", case, rest_times=L):
                 reused.calculate_activation(environment, exposure=envd["exposure"], rest_times=L, abundance=abundance)
